@@ -21,6 +21,7 @@ import os
 import re
 import sys
 import threading
+import time
 
 import common
 
@@ -47,32 +48,36 @@ class Deadlock(Exception):
     pass
 
 
-def explore(run_schedule, max_preempt, limit=None):
+def explore(run_schedule, max_preempt, limit=None, max_inner=None):
     """Stateless preemption-bounded exploration.  run_schedule(decisions) runs one execution
     that follows the default policy (keep running the current actor while it is enabled; at a
     forced switch take the lowest enabled actor) except at the step indices in `decisions`
-    ({step: actor}); it returns the trace [(current, enabled tuple, chosen)] of its choice
-    points.  Yields (decisions, result of run_schedule)."""
-    stack = [({}, 0, 0)]          # decisions, first step index that may deviate, preemptions used
+    ({step: actor}); it returns the trace [(current, enabled tuple, chosen, inner?)] of its
+    choice points (inner? = the point lies inside the bulk of the work, e.g. _generate_ast,
+    rather than in the protocol around it).  Explores every schedule with at most max_preempt
+    preemptions of which at most max_inner at inner points.  Yields (decisions, payload)."""
+    stack = [({}, 0, 0, 0)]       # decisions, first step index that may deviate, preemptions, inner ones
     seen = 0
     while stack:
-        decisions, first, used = stack.pop()
+        decisions, first, used, inner = stack.pop()
         trace, payload = run_schedule(decisions)
         seen += 1
         yield decisions, payload
         if limit is not None and seen >= limit:
             return
         for s in range(first, len(trace)):
-            cur, enabled, chosen = trace[s]
+            cur, enabled, chosen = trace[s][:3]
+            is_inner = bool(trace[s][3]) if len(trace[s]) > 3 else False
             for t in enabled:
                 if t == chosen:
                     continue
                 cost = 1 if (cur is not None and cur in enabled) else 0
-                if used + cost > max_preempt:
+                icost = cost if is_inner else 0
+                if used + cost > max_preempt or (max_inner is not None and inner + icost > max_inner):
                     continue
                 d = dict(decisions)
                 d[s] = t
-                stack.append((d, s + 1, used + cost))
+                stack.append((d, s + 1, used + cost, inner + icost))
 
 
 def choose(decisions, step, cur, enabled):
@@ -114,9 +119,14 @@ class CoopLock:
 
 
 class ThreadSched:
-    def __init__(self, filename, lines, lock_of):
+    """Only the baton holder runs.  The scheduling decision is taken by the thread that reaches
+    a preemption point (or finishes); when the decision is "keep running" no OS-level switch
+    happens at all, which keeps a sweep of thousands of schedules cheap."""
+
+    def __init__(self, filename, lines, lock_of, inner=frozenset()):
         self.filename = filename
         self.lines = lines
+        self.inner = inner
         self.lock_of = lock_of                # () -> CoopLock
         self.local = threading.local()
 
@@ -134,10 +144,33 @@ class ThreadSched:
             self.yield_baton(self.local.tid, line=frame.f_lineno)
         return self._local_trace
 
+    def _decide(self, cur):
+        """next thread to run (None: all done or deadlock); records the choice point"""
+        n = len(self.done)
+        if all(self.done):
+            return None
+        lock = self.lock_of()
+        enabled = tuple(i for i in range(n) if not self.done[i]
+                        and not (self.blocked[i] and lock is not None and lock.owner is not None))
+        if not enabled:
+            self.deadlock = True
+            return None
+        c = cur if cur is not None and not self.done[cur] else None
+        nxt = choose(self.decisions, len(self.trace), c, enabled)
+        self.trace.append((c, enabled, nxt, c is not None and self.at[c] in self.inner))
+        return nxt
+
     def yield_baton(self, tid, blocked=False, line=None):
         self.blocked[tid] = blocked
         self.at[tid] = line
-        self.ctl.release()
+        nxt = self._decide(tid)
+        if nxt == tid:
+            self.blocked[tid] = False
+            return
+        if nxt is None:                       # deadlock: give control back, stay parked
+            self.ctl.release()
+        else:
+            self.sem[nxt].release()
         self.sem[tid].acquire()
         self.blocked[tid] = False
 
@@ -152,7 +185,11 @@ class ThreadSched:
         finally:
             sys.settrace(None)
             self.done[tid] = True
-            self.ctl.release()
+            nxt = self._decide(tid)
+            if nxt is None:
+                self.ctl.release()
+            else:
+                self.sem[nxt].release()
 
     # -- controller
     def run(self, fns, decisions):
@@ -163,30 +200,24 @@ class ThreadSched:
         self.blocked = [False] * n
         self.at = [None] * n
         self.results = [None] * n
+        self.trace = []
+        self.decisions = decisions
+        self.deadlock = False
         threads = [threading.Thread(target=self._body, args=(i, f), daemon=True) for i, f in enumerate(fns)]
         for t in threads:
             t.start()
-        trace, cur, step = [], None, 0
-        while not all(self.done):
-            lock = self.lock_of()
-            enabled = tuple(i for i in range(n) if not self.done[i]
-                            and not (self.blocked[i] and lock is not None and lock.owner is not None))
-            if not enabled:
-                # every live thread waits for a lock nobody will release
-                for i in range(n):
-                    if not self.done[i]:
-                        self.results[i] = ('exc', 'Deadlock')
-                raise Deadlock(trace)
-            nxt = choose(decisions, step, cur if cur is not None and not self.done[cur] else None, enabled)
-            trace.append((cur if cur is not None and not self.done[cur] else None, enabled, nxt))
-            step += 1
-            cur = nxt
-            self.sem[nxt].release()
-            if not self.ctl.acquire(timeout=20):
-                raise RuntimeError('managed thread %d did not yield' % nxt)
+        first = self._decide(None)
+        self.sem[first].release()
+        if not self.ctl.acquire(timeout=60):
+            raise RuntimeError('managed threads did not finish')
+        if self.deadlock:
+            for i in range(n):
+                if not self.done[i]:
+                    self.results[i] = ('exc', 'Deadlock')
+            raise Deadlock(self.trace)
         for t in threads:
             t.join(5)
-        return trace, list(self.results)
+        return self.trace, list(self.results)
 
 
 # ------------------------------------------------------------------ thread half: route sets
@@ -266,7 +297,8 @@ def safe(fn):
         return ('exc', type(e).__name__ + ': ' + str(e)[:160])
 
 
-def thread_sweep(ctx, model, templates, nthreads, max_preempt, limit, tag, decisions_only=None, paths=None):
+def thread_sweep(ctx, model, templates, nthreads, max_preempt, limit, tag, decisions_only=None, paths=None,
+                 max_inner=None, deadline=None):
     """all schedules with <= max_preempt preemptions of nthreads first-ever lookups on a fresh
     router; returns number of schedules run"""
     from falcon.routing import compiled
@@ -284,7 +316,7 @@ def thread_sweep(ctx, model, templates, nthreads, max_preempt, limit, tag, decis
 
     def run_schedule(decisions):
         r = make_router(compiled, templates)
-        sched = ThreadSched(fn, lines, lambda: state.get('lock'))
+        sched = ThreadSched(fn, lines, lambda: state.get('lock'), thread_sweep.inner)
         lock = CoopLock(sched)
         state['lock'] = lock
         r._compile_lock = lock
@@ -300,9 +332,12 @@ def thread_sweep(ctx, model, templates, nthreads, max_preempt, limit, tag, decis
     n = 0
     oracle_cases, metas = [], []
     it = [(decisions_only, run_schedule(decisions_only)[1])] if decisions_only is not None else \
-        explore(run_schedule, max_preempt, limit)
+        explore(run_schedule, max_preempt, limit, max_inner)
     for decisions, (res, post, dead, nsteps) in it:
         n += 1
+        if deadline is not None and time.time() > deadline:
+            ctx.count('sweeps-cut-by-deadline')
+            break
         detail = {'mode': 'threads', 'templates': templates, 'thread_paths': tpaths, 'post_paths': allpaths,
                   'decisions': {str(k): v for k, v in decisions.items()}, 'tag': tag}
         if dead:
@@ -345,7 +380,7 @@ def model_check(ctx, model, templates, paths, serial):
         return
     adds = [[t, i] for i, t in enumerate(templates)]
     n = len(paths)
-    sched = [i for _ in range(60) for i in range(n)]
+    sched = [i for _ in range(80 + 6 * n) for i in range(n)]
     out = model.run([0, tab, multi, adds, paths, 1, 1, sched])
     if out[0] != 1:
         ctx.violation('model-tree-not-wf', {'broken': 'C19 hypothesis wf (C01_reachable_wf)', 'templates': templates},
@@ -369,7 +404,7 @@ def model_check(ctx, model, templates, paths, serial):
     ctx.count('model-threads', n)
 
 
-def app_sweep(ctx, templates, nthreads, max_preempt, limit, tag):
+def app_sweep(ctx, templates, nthreads, max_preempt, limit, tag, deadline=None):
     """the same through falcon.App (WSGI): responders, middleware, per-request objects"""
     import falcon
     from falcon import testing
@@ -414,6 +449,9 @@ def app_sweep(ctx, templates, nthreads, max_preempt, limit, tag):
     n = 0
     for decisions, (res, post, dead) in explore(run_schedule, max_preempt, limit):
         n += 1
+        if deadline is not None and time.time() > deadline:
+            ctx.count('sweeps-cut-by-deadline')
+            break
         detail = {'mode': 'wsgi-app', 'templates': templates, 'thread_paths': tpaths,
                   'decisions': {str(k): v for k, v in decisions.items()}, 'tag': tag}
         if dead:
@@ -579,7 +617,7 @@ def gen_asgi_request(rng, k):
     return {'method': 'DELETE', 'path': '/items/%d' % n, 'rid': rid}
 
 
-def asgi_sweep(ctx, spec, requests, max_preempt, limit, tag, decisions_only=None):
+def asgi_sweep(ctx, spec, requests, max_preempt, limit, tag, decisions_only=None, deadline=None):
     import falcon
 
     def drive(app, rqs, decisions):
@@ -622,6 +660,9 @@ def asgi_sweep(ctx, spec, requests, max_preempt, limit, tag, decisions_only=None
         explore(run_schedule, max_preempt, limit)
     for decisions, res in it:
         n += 1
+        if deadline is not None and time.time() > deadline:
+            ctx.count('sweeps-cut-by-deadline')
+            break
         if res != serial:
             i = next(i for i, (a, b) in enumerate(zip(res, serial)) if a != b)
             ctx.violation('concurrent-response-differs',
@@ -646,6 +687,14 @@ def setup_lines():
         src = fh.read().split('\n')
     first_cx = next((i + 1 for i, l in enumerate(src) if l.startswith('class _Cx')), len(src) + 1)
     thread_sweep.lines = {l for l in lines if l < first_cx}
+    # "inner" points: the bulk of the compilation (_generate_ast, _generate_conversion_ast), as
+    # opposed to the protocol around it (find, _compile_and_find, the resets and the slot write)
+    def span(name):
+        a = next(i + 1 for i, l in enumerate(src) if l.startswith('    def %s(' % name))
+        b = next((i + 1 for i in range(a, len(src)) if src[i].startswith('    def ')), len(src))
+        return range(a, b)
+    thread_sweep.inner = frozenset(l for l in thread_sweep.lines
+                                   if l in span('_generate_ast') or l in span('_generate_conversion_ast'))
     return thread_sweep.lines
 
 
@@ -668,38 +717,43 @@ def main(ctx):
     for o in common.corpus('C19'):
         replay(ctx, o)
     rng = ctx.rng
-    # --- threads, router level
     sets = list(TPL_SMALL)
     rng.shuffle(sets)
-    t_budget = 75 if quick else 600
-    for i, tpls in enumerate(sets[:5 if quick else len(sets)]):
-        if ctx.time_left(t_budget) < 0:
-            break
-        thread_sweep(ctx, model, tpls, 2, 2, None, 'thr2')
+    # wall-clock allotments (seconds) per part; the quick tier must stay below 3 minutes also on a
+    # loaded machine, so a sweep that overruns its allotment is cut (counted in the distribution)
+    T = (lambda q, t: time.time() + (q if quick else t))
+    # --- threads, router level: all schedules with <= 2 preemptions
+    dl = T(40, 500)
+    for tpls in sets[:2 if quick else len(sets)]:
+        thread_sweep(ctx, model, tpls, 2, 2, None, 'thr2', deadline=dl)
+    # deeper along the protocol: <= 3 preemptions of which at most one inside _generate_ast
+    dl = T(50, 900)
+    for tpls in ([['/x/{a:int}']] if quick else [['/x/{a:int}']] + [t[:2] for t in sets[:3]]):
+        thread_sweep(ctx, model, tpls, 2, 3, None if quick else 40000, 'thr2-proto3', max_inner=1, deadline=dl)
+    dl = T(14, 400)
     for tpls in (TPL_BIG[:1] if quick else TPL_BIG):
-        if ctx.time_left(t_budget) < 0:
-            break
-        thread_sweep(ctx, model, tpls, 2, 1, None, 'thr2-big')
-        thread_sweep(ctx, model, tpls, 3, 1 if quick else 2, 400 if quick else 4000, 'thr3-big')
+        thread_sweep(ctx, model, tpls, 2, 1, None, 'thr2-big', deadline=dl)
+        thread_sweep(ctx, model, tpls, 3, 1 if quick else 2, 300 if quick else 4000, 'thr3-big', deadline=dl)
     if not quick:
+        dl = T(0, 500)
         for tpls in sets[:3]:
-            thread_sweep(ctx, model, tpls, 3, 3, 6000, 'thr3')
+            thread_sweep(ctx, model, tpls, 3, 3, 6000, 'thr3', deadline=dl)
     # --- threads, through falcon.App
+    dl = T(10, 300)
     for tpls in (sets[:1] if quick else sets[:4]):
-        if ctx.time_left(t_budget + 20) < 0:
-            break
-        app_sweep(ctx, tpls, 2, 1 if quick else 2, 150 if quick else 3000, 'app2')
+        app_sweep(ctx, tpls, 2, 1 if quick else 2, 150 if quick else 3000, 'app2', deadline=dl)
     if not quick:
-        app_sweep(ctx, sets[0], 3, 2, 3000, 'app3')
+        app_sweep(ctx, sets[0], 3, 2, 3000, 'app3', deadline=T(0, 200))
     # --- ASGI
-    n_apps = 30 if quick else 120
+    dl = T(30, 600)
+    n_apps = 24 if quick else 120
     for i in range(n_apps):
-        if ctx.time_left((t_budget + 60) if quick else 1100) < 0:
+        if time.time() > dl:
             break
         spec = {'mw2': rng.random() < 0.6, 'independent': rng.random() < 0.7, 'sink': rng.random() < 0.7}
         k = 2 if (quick or i % 3) else 3
         reqs = [gen_asgi_request(rng, j) for j in range(k)]
-        asgi_sweep(ctx, spec, reqs, 2 if quick or k == 3 else 3, 1500 if quick else 8000, 'asgi%d' % k)
+        asgi_sweep(ctx, spec, reqs, 2 if quick or k == 3 else 3, 1500 if quick else 8000, 'asgi%d' % k, deadline=dl)
         if i < 2:
             ctx.sample({'asgi': reqs})
 
